@@ -6,10 +6,12 @@ _c31_hdr = _os2.path.join(_os2.path.dirname(_os2.path.abspath(__file__)), 'engin
 _c31_key = _hl.sha256(open(_c31_hdr, 'rb').read()).hexdigest()[:16]
 
 target('c31_l2cap', 'engines/comp/c31_l2cap.cpp',
-       quick=dict(cases=40000, size=100), thorough=dict(cases=1000000, size=140),
+       quick=dict(cases=30000, size=100), thorough=dict(cases=600000, size=140),
        extra_src=['$REPO/bluetoe/utility/address.cpp'],
        cxxflags=['-DC31_COMMON_HPP_SHA=0x' + _c31_key])
-prop('C31', ['c31_l2cap'], 'comp',
+target('c31_l2cap_fuzz', 'engines/comp/c31_l2cap_fuzz.cpp', kind='fuzz',
+       quick=dict(runs=60000, max_seconds=60), thorough=dict(runs=5000000, max_seconds=1200))
+prop('C31', ['c31_l2cap', 'c31_l2cap_fuzz'], 'comp',
      rule='rapidcheck generates one of three stacks (l2cap<> over two stub channels and the real signaling_channel<>; l2cap<> over '
           'the real server, signalling channel and no / the legacy security manager with a toy toolbox) and a sequence of received '
           'frames (length field exact, +-1, 0, 0xFFFF, random; CIDs 4/5/6, unknown ones and ones that equal a known CID in one octet; '
